@@ -15,7 +15,7 @@
    source flips a switch, these lemmas stop computing and the theorems are reported as no longer
    shown; the former refutation witnesses (F10, F10b, F10d) are kept in corpus/C10 and, as regression
    lemmas conditional on the old switch values, in TranslateProofs2.v / TranslateProofs3.v. *)
-From LV Require Import Gen.Consts_C10 Pixel.Translate Pixel.TranslateProofs Pixel.TranslateProofs2 Pixel.TranslateProofs3.
+From LV Require Import Gen.Consts_C10 Pixel.Translate Pixel.TranslateProofs Pixel.TranslateProofs2 Pixel.TranslateProofs3 Pixel.TranslateProofs4.
 From Coq Require Import ZArith List.
 Import ListNotations.
 Local Open Scope Z_scope.
@@ -23,9 +23,12 @@ Local Open Scope Z_scope.
 (* C10_rule (full statement, as in DESIGN.md): for every supported pair and every source pixel each
    output component equals (c*outMax + inMax/2)/inMax, sits at the client's shift in the client's
    byte order, all other bits are 0 -- for both table strategies.
-   The faithful model violates it for [be sf = true] only: the provable part is C10_rule with that
-   hypothesis explicit, the excluded part is C10_rule_foreign_server_order_refuted (F10c).         *)
-Theorem C10_rule : forall econ sf cf cf' st msg cm stride w h input out,
+   The faithful model violates it for [be sf = true] only, and it fixes a little-endian host: the
+   provable part is PARTIAL w.r.t. "every supported pair" and named so (suffix _host_order_server: the
+   server format's byte order is the host's, i.e. little endian); the excluded part is
+   C10_rule_foreign_server_order_refuted (F10c).  The same suffix marks the 24-bpp-client and the
+   colour-map rule.  Nothing is claimed for a big-endian host.                                    *)
+Theorem C10_rule_host_order_server : forall econ sf cf cf' st msg cm stride w h input out,
   set_translate econ sf cf = SetupOk cf' st msg ->
   server_ok sf -> client_ok cf' -> be sf = false -> bytes_ok input ->
   st <> SNone ->
@@ -36,7 +39,7 @@ Theorem C10_rule : forall econ sf cf cf' st msg cm stride w h input out,
 Proof. exact rule_via_setup_now. Qed.
 
 (* the same for each strategy taken directly (no detour through the selection) *)
-Theorem C10_rule_both_strategies : forall st sf cf cm stride w h input out,
+Theorem C10_rule_both_strategies_host_order_server : forall st sf cf cm stride w h input out,
   (st = SSingleTC \/ st = SRGB) -> server_ok sf -> client_ok cf -> be sf = false ->
   bytes_ok input ->
   translate_fn st sf cf cm stride w h input = XOk out ->
@@ -76,7 +79,7 @@ Proof. exact single_nonvacuous. Qed.
 (* C10_rule_24: 24-bpp clients (accepted by the library when LIBVNCSERVER_ALLOW24BPP; [client_ok24] =
    bpp 24, same component conditions): the 3 output bytes of every pixel are the rule pixel in the
    client's byte order, for the single-table and for the three-table functions. *)
-Theorem C10_rule_24 : forall econ sf cf cf' st msg cm stride w h input out,
+Theorem C10_rule_24_host_order_server : forall econ sf cf cf' st msg cm stride w h input out,
   set_translate econ sf cf = SetupOk cf' st msg ->
   server_ok sf -> client_ok24 cf' -> be sf = false -> bytes_ok input ->
   st <> SNone ->
@@ -87,7 +90,7 @@ Theorem C10_rule_24 : forall econ sf cf cf' st msg cm stride w h input out,
     client_bytes cf' (rule_pixel sf cf' (src_pixel sf input (r * row_step sf stride + x * (bpp sf / 8)))).
 Proof. exact rule_24_via_setup_now. Qed.
 
-Theorem C10_rule_24_both_strategies : forall st sf cf cm stride w h input out,
+Theorem C10_rule_24_both_strategies_host_order_server : forall st sf cf cm stride w h input out,
   (st = SSingleTC \/ st = SRGB) ->
   server_ok sf -> client_ok24 cf -> be sf = false -> bytes_ok input ->
   translate_fn st sf cf cm stride w h input = XOk out ->
@@ -112,8 +115,11 @@ Theorem C10_rule_foreign_server_order_refuted :
 Proof. exact rule_foreign_server_order_refuted. Qed.
 
 (* C10_strategies_agree: the single-table and the three-table function compute the same result on
-   every input, for EVERY server format (no well-formedness needed), every 8/16/32-bpp client format
-   with shifts below 32 -- including faults and undefined cases *)
+   every input, for every server format (no well-formedness needed), every 8/16/32-bpp client format
+   with shifts below 32 -- including faults and undefined cases.  This is a statement about the MODEL;
+   it transfers to the C code only where the model mirrors it: for server shifts >= 32 the C expression
+   (pixel >> shift) is undefined behaviour (x86 masks the count) while the model's Z.shiftr yields 0, and
+   the generator never produces such server formats for the comparison. *)
 Theorem C10_strategies_agree : forall sf cf cm stride w h input,
   (bpp cf = 8 \/ bpp cf = 16 \/ bpp cf = 32) ->
   0 <= rs cf < 32 -> 0 <= gs cf < 32 -> 0 <= bs cf < 32 ->
@@ -151,7 +157,7 @@ Proof. exact identity_nonvacuous. Qed.
 (* C10_colourmap_rule: colour-mapped 8/16-bpp server: pixel value p is looked up in the map
    (black beyond its end) and each component is (c * (outMax+1)) >> 8|16 at the client's shift,
    client byte order, other bits 0 *)
-Theorem C10_colourmap_rule : forall econ sf cf cf' st msg cm stride w h input out,
+Theorem C10_colourmap_rule_host_order_server : forall econ sf cf cf' st msg cm stride w h input out,
   set_translate econ sf cf = SetupOk cf' st msg ->
   tc sf = false -> (bpp sf = 8 \/ bpp sf = 16) -> client_ok cf' -> be sf = false -> cmap_ok cm ->
   bytes_ok input ->
@@ -256,20 +262,24 @@ Example C10_area_nonvacuous :
   reads_fn SRGB (f_rgb888 false) (f_rgb565 false) 8 2 2 = [(0, 4); (4, 4); (8, 4); (12, 4)].
 Proof. exact area_nonvacuous. Qed.
 
-(* rfbSetClientColourMap for a true-colour client: the lookup table is rebuilt from the screen's
-   current map exactly when the server is colour-mapped and the client is ready; the colour-map rule
-   (C10_colourmap_rule, stated for any map) then applies to the new map *)
-Theorem C10_recolour : forall sf ready tcm scm,
+(* rfbSetClientColourMap for a true-colour client.  DEFINITIONAL: this only unfolds [recolour]; that the C
+   function rebuilds the table from the screen's current map exactly when the server is colour-mapped
+   and the client ready, and then replaces cl->modifiedRegion by the whole screen
+   ([recolour_marks_screen]), is established by the correspondence run (op recmap: table checksum, mod=,
+   later pixels), not by proof.  The colour-map rule is stated for any map, hence for the new one. *)
+Theorem C10_recolour_unfolding : forall sf ready tcm scm,
   (tc sf = false -> ready = true -> recolour sf ready tcm scm = scm) /\
   (tc sf = true \/ ready = false -> recolour sf ready tcm scm = tcm).
 Proof. exact recolour_spec. Qed.
 
-(* rfbNewFramebuffer with a connected client: the new server format is the one rfbInitServerFormat builds;
+(* rfbNewFramebuffer with a connected client.  Mostly DEFINITIONAL (unfolds [new_framebuffer]; content: the
+   memcmp [fmt_eqb] decides record equality); the tie to main.c is the correspondence run (op newfb).
+   The new server format is the one rfbInitServerFormat builds;
    either it is identical to the old one (field by field, flags included) and nothing needs to change, or
    rfbSetTranslateFunction is re-run for the client against the new format -- in particular when only the
    trueColour flag differs (colour-mapped 8-bit server replaced by a true-colour one).  The formats it
    establishes are in the supported domain and in host byte order, so C10_rule applies afterwards. *)
-Theorem C10_newfb : forall econ sf bytespp bps cfe,
+Theorem C10_newfb_unfolding : forall econ sf bytespp bps cfe,
   fst (new_framebuffer econ sf bytespp bps cfe) = init_server_format bytespp bps /\
   ((snd (new_framebuffer econ sf bytespp bps cfe) = None /\ init_server_format bytespp bps = sf) \/
    (snd (new_framebuffer econ sf bytespp bps cfe) = Some (set_translate econ (init_server_format bytespp bps) cfe) /\
@@ -287,6 +297,55 @@ Example C10_newfb_nonvacuous :
     Some (SetupOk (f_rgb888 false) SSingleTC []) /\
   snd (new_framebuffer false (init_server_format 4 8) 4 8 (f_rgb565 false)) = None.
 Proof. exact new_framebuffer_nonvacuous. Qed.
+
+(* ---- audit follow-up ------------------------------------------------------------------------- *)
+(* the single-table functions are never selected for 24- or 32-bpp servers: in particular the 4-byte
+   store of rfbTranslateWithSingleTable24to24 (tabletrans24template.c) is dead code.  Out-of-area WRITES
+   are otherwise inexpressible in this model (the output is a returned list; only its length is proved,
+   C10_area_out_length): that clause of the property is correspondence-only (canary + guard region). *)
+Theorem C10_single_table_not_for_24 : forall econ sf cf cf' st msg,
+  set_translate econ sf cf = SetupOk cf' st msg -> 16 < bpp sf -> st = SNone \/ st = SRGB.
+Proof. exact single_table_not_for_24. Qed.
+
+(* table bounds: every index used is below the number of malloc'ed entries, for any source value *)
+Theorem C10_rgb_index_in_table : forall v s m, 0 <= m -> 0 <= comp v s m < m + 1.
+Proof. exact rgb_index_in_table. Qed.
+
+Theorem C10_single_index_in_table : forall l, bytes_ok l -> 0 <= le_val l < 2 ^ (8 * Z.of_nat (length l)).
+Proof. exact single_index_in_table. Qed.
+
+Theorem C10_table_size : forall sf cf cm,
+  (bpp cf = 8 \/ bpp cf = 16 \/ bpp cf = 32) -> 0 <= bpp sf -> 0 <= rmax sf -> 0 <= gmax sf -> 0 <= bmax sf ->
+  Z.of_nat (length (table_bytes SSingleTC sf cf cm)) = 2 ^ bpp sf * (bpp cf / 8) /\
+  Z.of_nat (length (table_bytes SRGB sf cf cm)) = (rmax sf + gmax sf + bmax sf + 3) * (bpp cf / 8).
+Proof. exact table_bytes_size. Qed.
+
+(* the verbatim function: its read set [reads_fn SNone] is tied to translate_fn in both directions *)
+Theorem C10_area_none_reads_inside : forall sf cf cm stride w h input out,
+  0 <= bpp cf ->
+  translate_fn SNone sf cf cm stride w h input = XOk out ->
+  forall o l, In (o, l) (reads_fn SNone sf cf stride w h) -> 0 < l -> 0 <= o /\ o + l <= Z.of_nat (length input).
+Proof. exact none_reads_inside. Qed.
+
+Theorem C10_area_none_fault_is_read : forall sf cf cm stride w h input k,
+  translate_fn SNone sf cf cm stride w h input = XFault k ->
+  exists o l, In (o, l) (reads_fn SNone sf cf stride w h) /\ Z.of_nat (length input) < o + l /\
+              k = Z.max o (Z.of_nat (length input)).
+Proof. exact none_fault_is_read. Qed.
+
+(* "rounding to nearest": the C formula (c*outMax + inMax/2)/inMax is within half a step of the exact
+   quotient c*outMax/inMax *)
+Theorem C10_scale_nearest : forall c i o, 1 <= i -> 0 <= c -> 0 <= o ->
+  2 * Z.abs (scale_spec c i o * i - c * o) <= i.
+Proof. exact scale_spec_nearest. Qed.
+
+(* PF_EQ and the swap decisions compare the STORED bigEndian bytes with == ; every writer stores the
+   normalised byte (TRUE = 255 / FALSE = 0), so that comparison is the comparison of the booleans of
+   the model whatever non-zero byte a client sends.  That the writers do normalise is established by
+   the correspondence run only (op setupmsg with bytes 1, 2, 128, 255; seeds C10_D, C10_F). *)
+Theorem C10_stored_flags : forall a b,
+  (stored_flag (wire_flag a) =? stored_flag (wire_flag b)) = Bool.eqb (wire_flag a) (wire_flag b).
+Proof. exact stored_flags_compare. Qed.
 
 (* translator tie of the byte-swap macros: the model's swaps reproduce the values obtained by
    compiling Swap16 / Swap32 of rfb.h on probes with pairwise distinct bytes *)
